@@ -21,6 +21,7 @@ import io
 import json
 import logging
 import os
+import shutil
 import subprocess
 import sys
 import time
@@ -82,6 +83,7 @@ REQUIRED_CLASSES = {
     "after_key:adversarial": 80,
     "bulk:errors-true": 100,
     "bulk:parser-walks-items": 80,
+    "bulk:soft-failure-counted-with-errors-true": 40,
     "total:int": 150,
     "total:object": 150,
     "multi-page": 150,
@@ -121,10 +123,12 @@ def _run(coro):
     return _LOOP.run_until_complete(coro)
 
 
-def strategy(tier, known):
+def strategy(tier, known, kind="all"):
     # regions of known findings are generated all the same (at the alphabet's natural rate) and skipped + counted by is_excluded();
     # with an empty `known` set nothing is skipped, so a fixed finding is searched again
-    return G.cases(tier)
+    if kind == "all":
+        return G.cases(tier)
+    return {"bulk": G.bulk_case, "search": G.search_case, "scroll": G.scroll_case, "paginated": G.paginated_case, "composite": G.composite_case, "parse": G.parse_case}[kind](tier)
 
 
 # ------------------------------------------------------------------------------------------------ reference helpers (json.loads side)
@@ -411,6 +415,8 @@ def _run_bulk(case, obs):
         obs.cls("bulk:parser-walks-items")
     if len(datas) >= 100:
         obs.cls("bulk:>=100-items")
+    if not datas:
+        obs.cls("bulk:no-items")
     if any(isinstance(d.get("error"), str) for d in datas):
         obs.cls("bulk:error-as-string")
     if any(d["status"] in (299, 300) for d in datas):
@@ -430,6 +436,27 @@ def _label_search_doc(obs, text, doc):
     obs.cls(f"total:{style}")
     if len(text.encode("utf-8")) > 16 * 1024:
         obs.cls("text>16KiB")
+    hits = doc.get("hits", {}).get("hits") or []
+    for member in ("inner_hits", "fields", "highlight", "matched_queries"):
+        if any(member in h for h in hits):
+            obs.cls(f"hit:{member}")
+    if len(hits) >= 40:
+        obs.cls("hits>=40")
+    aggs = doc.get("aggregations")
+    if isinstance(aggs, dict):
+        obs.cls("aggs:present")
+        if any(k in ("sort", "hits", "took", "after_key", "total", "timed_out", "errors") for k in _keys_of(aggs)):
+            obs.cls("aggs:reserved-member-name")
+
+
+def _keys_of(o):
+    if isinstance(o, dict):
+        for k, v in o.items():
+            yield k
+            yield from _keys_of(v)
+    elif isinstance(o, list):
+        for v in o:
+            yield from _keys_of(v)
 
 
 def _nt_streaming(text, doc, needed_paths):
@@ -492,6 +519,9 @@ def _run_scroll(case, obs):
     obs.check(_same(r.get("took"), sum(f["took"] for f in used)), "scroll/took", f"took {r.get('took')!r} vs sum {[f['took'] for f in used]}")
     obs.check(_same(r.get("timed_out"), any(f["timed_out"] for f in used)), "scroll/timed_out", f"{r.get('timed_out')!r} vs {[f['timed_out'] for f in used]}")
     obs.check(es.cleared == [{"scroll_id": [fulls[0]["_scroll_id"]]}], "scroll/scroll_id", f"cleared {es.cleared!r}, first response has {fulls[0]['_scroll_id']!r}")
+    for k in range(1, len(es.requests)):
+        sent = (es.requests[k]["body"] or {}).get("scroll_id")
+        obs.check(sent == fulls[0]["_scroll_id"], "scroll/scroll_id", f"request {k} continues scroll {sent!r}, first response has {fulls[0]['_scroll_id']!r}")
     nt = False
     for k, (t, f) in enumerate(zip(texts, used)):
         _label_search_doc(obs, t, f)
@@ -533,7 +563,7 @@ def _run_paginated(case, obs):
     for k, (t, f) in enumerate(zip(texts, fulls)):
         want, region = cursors[k]
         ex = runner.SearchAfterExtractor()
-        for ht in {None, case.get("hits_total")}:
+        for ht in [None] + ([case["hits_total"]] if case.get("hits_total") is not None else []):
             try:
                 parsed, last_sort = ex(io.BytesIO(t.encode("utf-8")), pit, ht)
             except ValueError as e:  # json.JSONDecodeError from the textual cursor extraction
@@ -666,7 +696,7 @@ def _run_composite(case, obs):
 
     for k, (t, f) in enumerate(zip(texts, fulls)):
         present, want = keys[k]
-        for ht in {None, case.get("hits_total")}:
+        for ht in [None] + ([case["hits_total"]] if case.get("hits_total") is not None else []):
             parsed = runner.CompositeAggExtractor()(io.BytesIO(t.encode("utf-8")), pit, list(case["path"]), ht)
             _check_extracted_common(obs, "composite", parsed, f, pit, ht)
             got = parsed.get("after_key")
@@ -921,9 +951,13 @@ def _maybe_run_atheris():
     seed = int(os.environ.get("VERIF_SEED", "1") or "1")
     t0 = time.monotonic()
     procs = []
+    # one job per case kind (libFuzzer started from nothing stays with the kind its first bytes select), the rest on the mixture;
+    # odd jobs start from the unit tests' response literals, even ones from an empty corpus
+    kinds = ["paginated", "composite", "parse", "bulk", "scroll", "search", "all", "all"]
     for j in range(jobs):
         corpus_mode = "literals" if j % 2 else "empty"
-        cmd = [sys.executable, driver, "--repo", repo, "--out", ATHERIS_DIR, "--job", str(j), "--corpus", corpus_mode, "--seconds", str(seconds), "--seed", str(seed * 100 + j)]
+        cmd = [sys.executable, driver, "--repo", repo, "--out", ATHERIS_DIR, "--job", str(j), "--kind", kinds[j % len(kinds)], "--corpus", corpus_mode,
+               "--seconds", str(seconds), "--seed", str(seed * 100 + j)]
         env = dict(os.environ, PYTHONHASHSEED="0")
         procs.append(subprocess.Popen(cmd, stdout=subprocess.PIPE, stderr=subprocess.STDOUT, text=True, env=env, cwd=VERIF_ROOT))
     stats = []
@@ -934,14 +968,18 @@ def _maybe_run_atheris():
             p.kill()
             out, _ = p.communicate()
             out = (out or "") + "\n[killed: timeout]"
-        summary = [l for l in (out or "").splitlines() if l.startswith("ATHERIS-SUMMARY ")]
-        if summary:
-            try:
-                stats.append(json.loads(summary[-1][len("ATHERIS-SUMMARY ") :]))
-            except ValueError:
-                stats.append({"job": j, "error": "unparsable summary"})
-        else:
-            stats.append({"job": j, "exit": p.returncode, "error": "no summary", "tail": (out or "")[-400:]})
+        try:
+            with open(os.path.join(ATHERIS_DIR, f"job-{j}.stats.json"), encoding="utf-8") as f:
+                s = json.load(f)
+        except (OSError, ValueError):
+            s = {"job": j, "error": "no statistics file"}
+        s["exit"] = p.returncode
+        if p.returncode != 0 or "error" in s:
+            s["tail"] = (out or "")[-600:]
+        stats.append(s)
+        if os.path.exists(os.path.join(ATHERIS_DIR, f"job-{j}.stats.json")):
+            os.remove(os.path.join(ATHERIS_DIR, f"job-{j}.stats.json"))
+        shutil.rmtree(os.path.join(ATHERIS_DIR, f"corpus-{j}"), ignore_errors=True)
     found = sorted(glob.glob(os.path.join(ATHERIS_DIR, "case-*.json")))
     _ATHERIS_INFO.update(
         {
